@@ -21,14 +21,17 @@ d = P.driver('c14', ['<glm/glm.hpp>', '<glm/ext/scalar_ulp.hpp>', '<glm/ext/vect
                      '<glm/ext/matrix_relational.hpp>', '<glm/ext/quaternion_float.hpp>', '<glm/ext/quaternion_double.hpp>',
                      '<glm/ext/quaternion_relational.hpp>', '<glm/gtc/epsilon.hpp>'])
 contracts = []
-NMAX = 64          # bound of the n-step obligations (reported as bounded, never as proved)
+NMAX = 64          # bound of the scalar n-step obligations (reported as bounded, never as proved)
 UNW_N = NMAX + 2   # loop of n <= 64 iterations: 65 tests of the loop condition
+NMAX_V = 8         # bound of the vector n-step obligations (relational: two copies of every loop per component)
+UNW_NV = NMAX_V + 2
 UNW = 8            # for(i < L), L <= 4, where clang did not unroll it
 
 
 def C(fn, real, tier='quick', **kw):
     kw.setdefault('unwind', UNW)
     kw.setdefault('backends', ('sat',))   # floats: SAT only
+    kw.setdefault('timeout', 900)
     contracts.append((fn, real, tier, kw))
 
 
@@ -36,19 +39,27 @@ TY = {
     'f32': dict(cpp='float', ord='(s64)spec_ord32(%s)', fin='spec_isfinite32(%s)', nan='spec_isnan32(%s)', fabs='spec_fabs32(%s)',
                 sign='spec_sign32(%s)', within='spec_within_ulps32(%s, %s, (s32)%s)', dist='spec_ulpdist32(%s, %s)',
                 bits='ll2c_f32_bits(%s)', inf='(s64)SPEC_ORD32_INF', dret='int32_t',
-                dres='(s64)(s32)%s', dmax='(s64)0x7fffffff'),
+                dres='(s64)(s32)%s', dmax='(s64)0x7fffffff', signbit='0x80000000u'),
     'f64': dict(cpp='double', ord='spec_ord64(%s)', fin='spec_isfinite64(%s)', nan='spec_isnan64(%s)', fabs='spec_fabs64(%s)',
                 sign='spec_sign64(%s)', within='spec_within_ulps64(%s, %s, (s32)%s)', dist='spec_ulpdist64(%s, %s)',
                 bits='ll2c_f64_bits(%s)', inf='(s64)SPEC_ORD64_INF', dret='int64_t',
-                dres='(u64)%s', dmax='(u64)0x7fffffffffffffffull'),
+                dres='(u64)%s', dmax='(u64)0x7fffffffffffffffull', signbit='0x8000000000000000ull'),
 }
 LS = (1, 2, 3, 4)
 MATS = ((2, 2), (3, 2), (4, 4))   # (columns, rows)
 
 
-def tier_of(t, L=0):
-    # per-change tier: every float form; double in scalar and vec4 / mat2x2 form
-    return 'quick' if (t == 'f32' or L in (0, 4)) else 'thorough'
+def tier_of(t, L=0, cost='int', variant=False):
+    """per-change ('quick') tier.  cost: 'int' = integer-only obligations (seconds); 'fp' = obligations containing float
+    subtractions twice, once in the code and once in the clause (tens of seconds per component); 'loop' = unwound n-step
+    loops.  variant = overload that only forwards to another one (vector-of-ULPs / vector-of-epsilon / gtc alias)."""
+    if cost == 'int':
+        ok = (t == 'f32' or L in (0, 4)) and not (variant and t == 'f64')
+    elif cost == 'fp':
+        ok = L == 0 or (t == 'f32' and not variant)
+    else:
+        ok = L == 0 or (t == 'f32' and not variant and L in (2, 4))
+    return 'quick' if ok else 'thorough'
 
 
 def names(L, p):
@@ -85,8 +96,8 @@ def nstep_clause(t, x, n, r, sgn):
 NT = 'int8_t'
 
 
-def n_req(ns):
-    return [('steps_0_to_%d' % NMAX, ' && '.join('(s8)%s >= 0 && (s8)%s <= %d' % (n, n, NMAX) for n in ns))]
+def n_req(ns, nmax=NMAX):
+    return [('steps_0_to_%d' % nmax, ' && '.join('(s8)%s >= 0 && (s8)%s <= %d' % (n, n, nmax) for n in ns))]
 
 
 def n_ins(L, name='n'):
@@ -94,9 +105,10 @@ def n_ins(L, name='n'):
 
 
 BND = 'n <= %d' % NMAX
-for api, (fnext, fprev, fdist, F1, FV) in (
-        ('ext', ('nextFloat', 'prevFloat', 'floatDistance', 'glm/ext/scalar_ulp.inl', 'glm/ext/vector_ulp.inl')),
-        ('gtc', ('next_float', 'prev_float', 'float_distance', 'glm/gtc/ulp.inl', 'glm/gtc/ulp.inl'))):
+BND_V = 'n <= %d' % NMAX_V
+for alias, (fnext, fprev, fdist, F1, FV) in (
+        (False, ('nextFloat', 'prevFloat', 'floatDistance', 'glm/ext/scalar_ulp.inl', 'glm/ext/vector_ulp.inl')),
+        (True, ('next_float', 'prev_float', 'float_distance', 'glm/gtc/ulp.inl', 'glm/gtc/ulp.inl'))):
     for t, T in TY.items():
         cpp = T['cpp']
         for fname, sgn, cname in ((fnext, '+', 'smallest_representable_value_greater_than_x'),
@@ -114,17 +126,17 @@ for api, (fnext, fprev, fdist, F1, FV) in (
                 v1 = 'glm_%s_%s_v%d' % (fname, t, L)
                 d.shim(v1, 'void', vec_ins(L, t, 'x'), '%s r = glm::%s(%s); %s' % (V, fname, vec_make(L, t, 'x'), vec_store(L, 'r')),
                        outs=[(cpp, 'out', L)])
-                C(v1, 'glm::%s(vec<%d,%s>)  %s' % (fname, L, cpp, FV), tier_of(t, L), uses=[s1],
+                C(v1, 'glm::%s(vec<%d,%s>)  %s' % (fname, L, cpp, FV), tier_of(t, L, 'int', alias), uses=[s1],
                   ensures=[('comp%d_same_as_scalar' % i, same_bits(t, 'out[%d]' % i, '%s(%s)' % (s1, xs[i]), T['nan'] % xs[i])) for i in range(L)])
                 vn = 'glm_%s_n_%s_v%d' % (fname, t, L)
                 d.shim(vn, 'void', vec_ins(L, t, 'x') + [(NT, 'n')],
                        '%s r = glm::%s(%s, n); %s' % (V, fname, vec_make(L, t, 'x'), vec_store(L, 'r')), outs=[(cpp, 'out', L)])
-                C(vn, 'glm::%s(vec<%d,%s>, int)  %s' % (fname, L, cpp, FV), tier_of(t, L), uses=[sn], unwind=UNW_N, bounded=BND, requires=n_req(['n']),
+                C(vn, 'glm::%s(vec<%d,%s>, int)  %s' % (fname, L, cpp, FV), tier_of(t, L, 'loop', alias), uses=[sn], unwind=UNW_NV, bounded=BND_V, requires=n_req(['n'], NMAX_V),
                   ensures=[('comp%d_same_as_scalar' % i, same_bits(t, 'out[%d]' % i, '%s(%s, n)' % (sn, xs[i]), T['nan'] % xs[i])) for i in range(L)])
                 vv = 'glm_%s_vn_%s_v%d' % (fname, t, L)
                 d.shim(vv, 'void', vec_ins(L, t, 'x') + n_ins(L),
                        '%s r = glm::%s(%s, %s); %s' % (V, fname, vec_make(L, t, 'x'), vec_make(L, 'i32', 'n'), vec_store(L, 'r')), outs=[(cpp, 'out', L)])
-                C(vv, 'glm::%s(vec<%d,%s>, vec<%d,int>)  %s' % (fname, L, cpp, L, FV), tier_of(t, L), uses=[sn], unwind=UNW_N, bounded=BND, requires=n_req(ns),
+                C(vv, 'glm::%s(vec<%d,%s>, vec<%d,int>)  %s' % (fname, L, cpp, L, FV), tier_of(t, L, 'loop', True), uses=[sn], unwind=UNW_NV, bounded=BND_V, requires=n_req(ns, NMAX_V),
                   ensures=[('comp%d_same_as_scalar' % i, same_bits(t, 'out[%d]' % i, '%s(%s, %s)' % (sn, xs[i], ns[i]), T['nan'] % xs[i])) for i in range(L)])
         # ---------------- floatDistance
         sd = 'glm_%s_%s_s' % (fdist, t)
@@ -150,8 +162,12 @@ for api, (fnext, fprev, fdist, F1, FV) in (
             vd = 'glm_%s_%s_v%d' % (fdist, t, L)
             d.shim(vd, 'void', vec_ins(L, t, 'x') + vec_ins(L, t, 'y'),
                    'auto r = glm::%s(%s, %s); %s' % (fdist, vec_make(L, t, 'x'), vec_make(L, t, 'y'), vec_store(L, 'r')), outs=[(dret, 'out', L)])
-            C(vd, 'glm::%s(vec<%d,%s>, vec<%d,%s>)  %s' % (fdist, L, cpp, L, cpp, FV), tier_of(t, L), uses=[sd],
-              ensures=[('comp%d_same_as_scalar' % i, 'out[%d] == %s(%s, %s)' % (i, sd, xs[i], ys[i])) for i in range(L)])
+            # claimed where the scalar call has a defined value to compare with: the count fits the return type, and not
+            # y = -x bitwise (this includes the pair +0, -0), where GLM evaluates abs(INT_MIN) - a signed overflow, poison in
+            # the IR; that undefined behaviour itself is a C20 obligation
+            C(vd, 'glm::%s(vec<%d,%s>, vec<%d,%s>)  %s' % (fdist, L, cpp, L, cpp, FV), tier_of(t, L, 'int', alias), uses=[sd],
+              ensures=[('comp%d_same_as_scalar_where_defined' % i, '!(%s <= %s) || (%s ^ %s) == %s || out[%d] == %s(%s, %s)' % (
+                  T['dist'] % (xs[i], ys[i]), T['dmax'], T['bits'] % xs[i], T['bits'] % ys[i], T['signbit'], i, sd, xs[i], ys[i])) for i in range(L)])
 
 # ======================================================================================================
 # 2. equal / notEqual (x, y, ULPs)     glm/ext/scalar_relational.inl, vector_relational.inl, matrix_relational.inl
@@ -168,10 +184,14 @@ def ulp_clauses(t, x, y, k, res, eq, tag=''):
     want = ('%s' if eq else '!%s') % (T['within'] % (x, y, k))
     zeros = '(%s == 0 && %s == 0)' % (x, y)
     sx, sy = T['sign'] % x, T['sign'] % y
+    opp = '%s || %s == %s || %s' % (nn, sx, sy, zeros)   # guard of the "values straddling zero" case
+    says_equal = ('(%s != 0)' if eq else '(%s == 0)') % res
     return [
         (tag + 'same_sign_within_maxULPs', '%s || %s != %s || (%s != 0) == %s' % (nn, sx, sy, res, want)),
-        (tag + 'plus_zero_equals_minus_zero', '!%s || %s %s 0' % (zeros, res, '!=' if eq else '==')),
-        (tag + 'across_zero_within_maxULPs', '%s || %s == %s || %s || (%s != 0) == %s' % (nn, sx, sy, zeros, res, want)),
+        (tag + 'plus_zero_equals_minus_zero', '!%s || %s' % (zeros, says_equal)),
+        # the two directions of "exactly when" for values of opposite sign, as separate obligations
+        (tag + 'across_zero_equal_only_if_within_maxULPs', '%s || !%s || %s' % (opp, says_equal, T['within'] % (x, y, k))),
+        (tag + 'across_zero_equal_if_within_maxULPs', '%s || !%s || %s' % (opp, T['within'] % (x, y, k), says_equal)),
     ]
 
 
@@ -201,7 +221,7 @@ for t, T in TY.items():
                     ens.append(('comp%d_same_as_scalar' % i, '%s || %s || (out[%d] != 0) == (%s(%s, %s, %s) != 0)' % (
                         T['nan'] % xs[i], T['nan'] % ys[i], i, s, xs[i], ys[i], kk[i])))
                 C(v, 'glm::%s(vec<%d,%s>, vec<%d,%s>, %s ULPs)  %s' % (fname, L, cpp, L, cpp, 'vec<%d,int>' % L if vk else 'int', VR),
-                  tier_of(t, L), uses=[s], requires=k_req(ks if vk else ['k']), ensures=ens)
+                  tier_of(t, L, 'int', vk), uses=[s], requires=k_req(ks if vk else ['k']), ensures=ens)
         for (Cn, Rn) in MATS:
             for vk in (False, True):
                 m = 'glm_%s_%s_%s_m%d%d' % (fname, 'vulps' if vk else 'ulps', t, Cn, Rn)
@@ -221,7 +241,7 @@ for t, T in TY.items():
                         want = ' || '.join('!' + T['within'] % (A[r], B[r], k) for r in range(Rn))
                     ens.append(('column%d_%s_within_maxULPs' % (c, 'all' if eq else 'not_all'), '%s || (out[%d] != 0) == (%s)' % (nn, c, want)))
                 C(m, 'glm::%s(mat<%d,%d,%s>, mat<%d,%d,%s>, %s ULPs)  %s' % (fname, Cn, Rn, cpp, Cn, Rn, cpp, 'vec<%d,int>' % Cn if vk else 'int', MR),
-                  tier_of(t, 0 if (Cn, Rn) == (2, 2) else 2), requires=k_req(['k%d' % c for c in range(Cn)] if vk else ['k']), ensures=ens)
+                  tier_of(t, 4 if (Cn, Rn) == (2, 2) else 2, 'int', vk), requires=k_req(['k%d' % c for c in range(Cn)] if vk else ['k']), ensures=ens)
 
 # ======================================================================================================
 # 3. equal / notEqual (x, y, epsilon), epsilonEqual / epsilonNotEqual        ... + glm/gtc/epsilon.inl
@@ -248,7 +268,7 @@ for t, T in TY.items():
                        'auto r = glm::%s(%s, %s, %s); %s' % (fname, vec_make(L, t, 'x'), vec_make(L, t, 'y'), earg, vec_store(L, 'r')),
                        outs=[('bool', 'out', L)])
                 C(v, 'glm::%s(vec<%d,%s>, vec<%d,%s>, %s epsilon)  %s' % (fname, L, cpp, L, cpp, 'vec<%d,%s>' % (L, cpp) if ve else cpp, F_V),
-                  tier_of(t, L), uses=[s],
+                  tier_of(t, L, 'fp', ve), uses=[s],
                   ensures=[('comp%d_same_as_scalar' % i, '(out[%d] != 0) == (%s(%s, %s, %s) != 0)' % (i, s, xs[i], ys[i], ee[i])) for i in range(L)])
         # quaternion overloads: x y z w <-> result components 0..3
         q = 'glm_%s_%s_q' % (tag, t)
@@ -256,7 +276,7 @@ for t, T in TY.items():
         ins = [(cpp, n) for n in ('ax', 'ay', 'az', 'aw', 'bx', 'by', 'bz', 'bw', 'e')]
         d.shim(q, 'void', ins, 'auto r = glm::%s(%s::wxyz(aw, ax, ay, az), %s::wxyz(bw, bx, by, bz), e); %s' % (fname, Q, Q, vec_store(4, 'r')),
                outs=[('bool', 'out', 4)])
-        C(q, 'glm::%s(qua<%s>, qua<%s>, %s epsilon)  %s' % (fname, cpp, cpp, cpp, EP if eps_family else QR), uses=[s],
+        C(q, 'glm::%s(qua<%s>, qua<%s>, %s epsilon)  %s' % (fname, cpp, cpp, cpp, EP if eps_family else QR), tier_of(t, 4, 'fp'), uses=[s],
           ensures=[('comp%s_same_as_scalar' % c, '(out[%d] != 0) == (%s(a%s, b%s, e) != 0)' % (i, s, c, c)) for i, c in enumerate('xyzw')])
         if eps_family:
             continue
@@ -276,7 +296,7 @@ for t, T in TY.items():
                     ens.append(('column%d_%s_components_same_as_scalar' % (c, 'all' if eq else 'any'),
                                 '(out[%d] != 0) == (%s)' % (c, (' && ' if eq else ' || ').join(calls))))
                 C(m, 'glm::%s(mat<%d,%d,%s>, mat<%d,%d,%s>, %s epsilon)  %s' % (fname, Cn, Rn, cpp, Cn, Rn, cpp, 'vec<%d,%s>' % (Cn, cpp) if ve else cpp, MR),
-                  tier_of(t, 0 if (Cn, Rn) == (2, 2) else 2), uses=[s], ensures=ens)
+                  'quick' if (t == 'f32' and (Cn, Rn) == (2, 2) and not ve) else 'thorough', uses=[s], ensures=ens)
 
 flat = P.build(d, 'flat')
 for fn, real, tier, kw in contracts:
